@@ -9,7 +9,13 @@ import RtenVerif.Model.Sampler
 * `mn t=<num> p=<num,…> c=<num,…>` — the private `multinomial` loop: draw `t`, probabilities
   `p`, and the trace `c` of the running float sum (`c[i] = fl(c[i-1] + p[i])`), from which the
   addition function is rebuilt.  Answer `some <idx>` or `none`.
-* `ms t=… p=… c=… ids=<csv>` — `Multinomial::sample`.  Answer `id=<token>` or `panic`.
+* `ms t=… p=… c=… ids=<csv> [l=<keys>]` — `Multinomial::sample`.  Answer `id=<token>` or `panic`.
+  With `l=` (logit keys: order-preserving integers, `ninf` for −∞) the answer is
+  `id=<token> walk=<hit|end> asm=<ok|…>`: `walk` tells whether a cumulative sum exceeded the draw
+  (`hit`) or the walk fell off the end (`end`), `asm` evaluates the softmax facts the theorems
+  assume (`SoftmaxFacts`: non-negative, −∞ ↦ 0, exact sum within 2^-16 of 1, monotone in the
+  logit) on the probabilities the implementation computed; the harness always answers `asm=ok`,
+  so a violated assumption is reported as a disagreement, separately from property failures.
 
 `<num>` is `<m>@<e>` = m·2^e (every finite f32 is of this form with e ≥ −149); all numbers
 are put on the common scale 2^-200 so the model computes with exact integers.
@@ -61,6 +67,30 @@ def zipIds : List Nat → List Int → List (Nat × Int)
   | i :: is, p :: ps => (i, p) :: zipIds is ps
   | _, _ => []
 
+def parseKey (s : String) : Option (Option Int) :=
+  if s == "ninf" then some none else s.toInt?.map some
+
+def parseKeys (s : String) : Option (List (Option Int)) :=
+  if s.isEmpty then some [] else (s.splitOn ",").mapM parseKey
+
+/-- Executable check of `SoftmaxFacts` (scale `2^200`, tolerance `2^-16`). -/
+def softmaxFacts (keys : List (Option Int)) (p : List Int) : String :=
+  let one : Int := (2 : Int) ^ 200
+  let tol : Int := (2 : Int) ^ 184
+  let total := p.foldl (· + ·) 0
+  let pairs := keys.zip p
+  if p.any (· < 0) then "negative"
+  else if pairs.any (fun kp => kp.1.isNone && kp.2 != 0) then "excluded-positive"
+  else if total < one - tol || one + tol < total then "sum"
+  else
+    -- monotone ⇔ sorted by (logit, prob), the probabilities are non-decreasing
+    let fin := pairs.filterMap (fun kp => kp.1.map (fun k => (k, kp.2)))
+    let srt := fin.mergeSort (fun a b => a.1 < b.1 || (a.1 == b.1 && a.2 ≤ b.2))
+    let rec go : List (Int × Int) → Bool
+      | a :: b :: rest => if a.2 ≤ b.2 then go (b :: rest) else false
+      | _ => true
+    if go srt then "ok" else "not-monotone"
+
 def handle (line : String) : String :=
   match words line with
   | "am" :: cs =>
@@ -82,8 +112,15 @@ def handle (line : String) : String :=
           (field "ids" ws).bind (parseNatList ",") with
     | some t, some p, some c, some ids =>
       if p.length != c.length || p.length != ids.length then "bad-request" else
-      match sample currentRule (addOf (mkTable 0 p c)) t (zipIds ids p) with
-      | some r => s!"id={r.1}"
+      let add := addOf (mkTable 0 p c)
+      match sample currentRule add t (zipIds ids p) with
+      | some r =>
+        match (field "l" ws).bind parseKeys with
+        | some keys =>
+          if keys.length != p.length then "bad-request" else
+          let walk := if (firstExceed add t 0 (zipIds ids p)).isSome then "hit" else "end"
+          s!"id={r.1} walk={walk} asm={softmaxFacts keys p}"
+        | none => s!"id={r.1}"
       | none => "panic"
     | _, _, _, _ => "bad-request"
   | _ => "bad-request"
